@@ -12,6 +12,7 @@ CONSTANTS
   MaxCancel = 0
   MaxSpur = 0
   Endings = {}
+  SeiSet = {"never"}
   Dev = {}
 VIEW view
 CONSTRAINT Proviso
